@@ -146,26 +146,11 @@ func vpInconclusive(t vpT, format string, args ...any) {
 	t.Fatalf("VP-INCONCLUSIVE "+format, args...)
 }
 
-func vpNewMiniAgg(t vpT, o vpAggOpts) *vpMiniAgg {
-	if o.Replica < 1 || o.Replica > 3 || o.Shard < 1 {
-		t.Fatalf("bad opts %+v", o)
-	}
-	if o.NumShards < int(o.Shard) {
-		o.NumShards = int(o.Shard)
-	}
-	if o.Inserters <= 0 {
-		o.Inserters = 1
-	}
-	if o.AggHostTag == 0 {
-		o.AggHostTag = 777000
-	}
-	m := &vpMiniAgg{t: t, opts: o, byBucket: map[*aggregatorBucket][]*vpAggCall{}, arrived: make(chan *vpInsert, 64), handled: make(chan bool, 64)}
-
-	// fake ClickHouse
-	m.ch = httptest.NewServer(http.HandlerFunc(m.serveCH))
-
+// vpBuildAggregator makes the Aggregator literal (no MakeAggregator: no metadata, no ticker, no RPC server) with its
+// built-in agent (never Run), mappings storage and o.Inserters real goInsert goroutines inserting into khAddr.
+func vpBuildAggregator(t vpT, o vpAggOpts, khAddr string) *Aggregator {
 	cfg := DefaultConfigAggregator()
-	cfg.KHAddr = m.ch.Listener.Addr().String()
+	cfg.KHAddr = khAddr
 	cfg.RecentInserters = o.Inserters
 	if o.HistoricInserters > 0 {
 		cfg.HistoricInserters = o.HistoricInserters
@@ -271,6 +256,28 @@ func vpNewMiniAgg(t vpT, o vpAggOpts) *vpMiniAgg {
 	for i := 0; i < o.Inserters; i++ {
 		go a.goInsert(a.insertsSema, a.cancelInsertsCtx, a.bucketsToSend, i)
 	}
+	return a
+}
+
+func vpNewMiniAgg(t vpT, o vpAggOpts) *vpMiniAgg {
+	if o.Replica < 1 || o.Replica > 3 || o.Shard < 1 {
+		t.Fatalf("bad opts %+v", o)
+	}
+	if o.NumShards < int(o.Shard) {
+		o.NumShards = int(o.Shard)
+	}
+	if o.Inserters <= 0 {
+		o.Inserters = 1
+	}
+	if o.AggHostTag == 0 {
+		o.AggHostTag = 777000
+	}
+	m := &vpMiniAgg{t: t, opts: o, byBucket: map[*aggregatorBucket][]*vpAggCall{}, arrived: make(chan *vpInsert, 64), handled: make(chan bool, 64)}
+
+	// fake ClickHouse
+	m.ch = httptest.NewServer(http.HandlerFunc(m.serveCH))
+
+	a := vpBuildAggregator(t, o, m.ch.Listener.Addr().String())
 	m.a = a
 
 	// real RPC server in front of the real sync handler; the wrapper only signals that the handler returned
